@@ -434,6 +434,7 @@ impl VLogWriter {
 
 		let current_offset = file.metadata()?.len();
 		let mut writer = BufWriter::new(file);
+		verif_yield!("vlog.file_opened");
 
 		// If this is a new file, write the header
 		if !file_exists || current_offset == 0 {
@@ -441,6 +442,7 @@ impl VLogWriter {
 			let header_bytes = header.encode();
 			writer.write_all(&header_bytes)?;
 			writer.flush()?;
+			verif_yield!("vlog.header_written");
 		}
 
 		// Update offset to account for header
